@@ -128,6 +128,18 @@ func (r *Run) seedModel(extra []Pred) map[int]*big.Int {
 			}
 		}
 		if good {
+			if viol := r.internViolations(asg); len(viol) > 0 {
+				// make the violated distinctness assumptions explicit and try again
+				for _, g := range viol {
+					if k := g.key(); !r.genericK[k] && !r.pathK[k] {
+						r.genericK[k] = true
+						r.generic = append(r.generic, g)
+					}
+				}
+				good = false
+			}
+		}
+		if good {
 			return asg
 		}
 	}
